@@ -831,12 +831,26 @@ func (r *Runner) backupDir(op *Op) string {
 		if n == 1 {
 			return filepath.Join(r.Root, "d") // a sibling whose path is a string prefix of the source's (".../d" of ".../db")
 		}
+	case 5:
+		if prev, _ := r.extra["lastBackupDir"].(string); prev != "" {
+			return prev // the directory of the previous backup (which has been opened and closed since)
+		}
 	}
 	return filepath.Join(r.Root, fmt.Sprintf("bk%d", n))
 }
 
 func (r *Runner) doBackup(op *Op) {
 	dir := r.backupDir(op)
+	if prev, _ := r.extra["lastBackupDir"].(string); prev != "" && prev == dir {
+		r.inc("backups_into_older_backup")
+	}
+	r.extra["lastBackupDir"] = dir
+	hadLock := map[string]bool{} // an older backup in dir has been opened since: that Open created a lock file there
+	if before, e := os.ReadDir(dir); e == nil {
+		for _, e := range before {
+			hadLock[e.Name()] = true
+		}
+	}
 	var err error
 	if !r.call("Backup", func() { err = r.DB.Backup(dir) }) {
 		return
@@ -847,7 +861,7 @@ func (r *Runner) doBackup(op *Op) {
 	}
 	ents, _ := os.ReadDir(dir)
 	for _, e := range ents {
-		if strings.HasSuffix(e.Name(), ".lock") {
+		if strings.HasSuffix(e.Name(), ".lock") && !hadLock[e.Name()] {
 			r.fail("backup-copied-lock", "", "the backup contains the lock file %s", e.Name())
 			return
 		}
